@@ -30,10 +30,13 @@ RULE = ('breadth-first over call sequences of the edit alphabet (refine x 4 bise
         'decompose_columns, reduce, rename_column/-layer single+list, delete_column, add/delete node, column, '
         'connection, layer, well, refine_layers x factor 2|3, both snaps, fit_surface, translate, rotate, '
         'copy_layers_from x 3 layer sources (top at, above, below the old ground), a vertical translate of that '
-        'source geometry, write+read) with column/node/layer arguments as canonical indices and the subset rule '
+        'source geometry, check(fix=True) on a valid mesh, write+read) with column/node/layer arguments as canonical indices and the subset rule '
         'given in bounds; a state is distinct by its name-assignment-free canonical form (node coordinates, column '
         'vertex sequences/surface/centre/layer count, unordered connection pairs, layers, wells, harness-given names, '
-        'mesh-validity flag); every transition is validated against the reference invariant')
+        'mesh-validity flag, and which read-only operations ran on the object after how many edits); every '
+        'transition is validated against the reference invariant.  Observed histories: on the +obs seeds every '
+        'sequence of two topology edits with one read-only operation (check(), get_missing_connections(), the other '
+        'look-ups) before the first or between the two')
 ASSUMPTIONS = [
     'reference invariant computed from attribute reads and ref/geomodel.py (vertex identity, exact Fraction areas); '
     'col.area compared to the exact area at 1e-9 relative',
@@ -73,6 +76,12 @@ ASSUMPTIONS = [
     '(setup_block_name_index, setup_block_connection_name_index, set_column_num_layers, identify_neighbours), '
     'DESIGN 3.2; stale name lists after a primitive have one signature per primitive (F15); every other finding '
     'ends its branch (error states are not expanded)',
+    'read-only operations (check(), get_missing_connections(), the other look-ups) are in the alphabet of the +obs '
+    'seeds for what they may leave behind on the objects: after one the invariant must hold and the canonical form '
+    'must be unchanged; what they answer or raise is not judged (raises are counted as query-raised).  A state that '
+    'was observed is distinct from the same geometry never observed (the observation and the number of edits before '
+    'it are part of the canonical state; a geometry read from a file is a new object, nothing observed)',
+    'check(fix=True) is offered on a mesh the reference finds valid and promises a valid mesh',
     'canonical coordinates rounded to 1e-7, fitted surfaces to 1e-6 (fit_surface assembles its matrix in set order)',
 ]
 BOUNDS = {
@@ -84,15 +93,31 @@ BOUNDS = {
                         'exactly fills its field)',
                         'conv1rt / conv2rt (naming conventions 1 and 2: one column refined, written and read back)',
                         'hang7r0..6 (a 7-node column with three straight mid-side nodes among six quadrilaterals, '
-                        'node list started at each of its 7 nodes)'],
+                        'node list started at each of its 7 nodes)',
+                        'rect2x2+obs / mixed6+obs (the same geometries, observed-history alphabet)'],
+              'observed_histories': 'seeds rect2x2+obs, mixed6+obs: every sequence q e1 e2 and e1 q e2 with q one of the '
+                                    'read-only operations check() | get_missing_connections() | the other look-ups '
+                                    '(extra_connections, orphans, bad_columns, is_against and connects for every '
+                                    'ordered pair, neighbour lists, boundary nodes/polygon/columns, neighbour groups, '
+                                    'bounds, kd-tree, quadtree, column_containing_point) and e1, e2 from the topology '
+                                    'alphabet (refine, split_column, decompose_columns, reduce, check(fix=True), '
+                                    'delete_column, add_column, add/delete node, add/delete connection, write+read); '
+                                    'e1: singles and the full set, every candidate; e2: first/last single and the '
+                                    'full set, first/last candidate, reduced alphabet',
               'depth': {'rect2x2': 2, 'rect3x2': 2, 'mixed6': 2, 'g7': 1, 'rect2x2L': 1, 'rect2x1n': 2, 'hang7r0': 2,
+                        'rect2x2+obs': 3, 'mixed6+obs': 3,
                         'rect2x2Lw0': 2, 'rect2x2Lw3': 1, 'conv1rt': 1, 'conv2rt': 2, 'hang7r1': 1, 'hang7r2': 1, 'hang7r3': 1, 'hang7r4': 1, 'hang7r5': 1, 'hang7r6': 1},
               'subsets_depth0': 'every non-empty column subset (<= 6 columns); rect3x2: singles, pairs and the full set',
               'subsets_deeper': 'singles and the full set; single-object arguments (split_column quad, delete_column, '
                                 'rename, connection, layer): the first and the last canonical candidate'},
     'thorough': {'builders': 'as quick',
-                 'seeds': ['rect2x2', 'rect3x2', 'mixed6', 'g7', 'rect2x2L', 'rect2x1n', 'hang7r0..6', 'rect2x2Lw0', 'rect2x2Lw3', 'conv1rt', 'conv2rt'],
+                 'seeds': ['rect2x2', 'rect3x2', 'mixed6', 'g7', 'rect2x2L', 'rect2x1n', 'hang7r0..6', 'rect2x2Lw0', 'rect2x2Lw3', 'conv1rt', 'conv2rt',
+                           'rect2x2+obs', 'mixed6+obs', 'rect3x2+obs', 'hang7r0+obs'],
+                 'observed_histories': 'as quick, seeds rect2x2+obs, mixed6+obs, rect3x2+obs, hang7r0+obs; e1: every '
+                                       'subset while <= 6 columns, otherwise singles, pairs of neighbours and the '
+                                       'full set',
                  'depth': {'rect2x2': 3, 'rect3x2': 2, 'mixed6': 3, 'g7': 1, 'rect2x2L': 2, 'rect2x1n': 3, 'hang7r0': 2,
+                           'rect2x2+obs': 3, 'mixed6+obs': 3, 'rect3x2+obs': 3, 'hang7r0+obs': 3,
                            'rect2x2Lw0': 2, 'rect2x2Lw3': 2, 'conv1rt': 2, 'conv2rt': 2, 'hang7r1': 2, 'hang7r2': 2, 'hang7r3': 2, 'hang7r4': 2, 'hang7r5': 2, 'hang7r6': 2},
                  'subsets_depth0': 'every non-empty column subset (<= 6 columns); g7: singles on a stride, one pair, full set',
                  'subsets_depth1': 'all subsets while <= 6 columns, otherwise singles, pairs of neighbours and the full set',
@@ -392,7 +417,11 @@ def canon_geo(geo):
 def canon(st):
     """The state = the geometry under edit, its mesh-validity flag, and the other geometry it took its layers
     from (an operation on one geometry must not change another, so the source belongs to the state)."""
-    return (canon_geo(st['geo']), st['valid'], tuple(canon_geo(g) for g in st.get('src', ())))
+    c = (canon_geo(st['geo']), st['valid'], tuple(canon_geo(g) for g in st.get('src', ())))
+    # read-only operations leave the canonical geometry as it is but may leave per-object state behind (lazily
+    # built look-ups); which of them ran on this very object, and after how many edits, belongs to the state -
+    # otherwise the search would merge 'observed' with 'never observed' and never expand the former
+    return c + (tuple(tuple(x) for x in st['obs']),) if st.get('obs') else c
 
 
 # ----------------------------------------------------------------------------------- seeds
@@ -499,6 +528,11 @@ def seed_g7():
 
 def make_seed(name):
     sys.setrecursionlimit(max(sys.getrecursionlimit(), 20000))
+    if name.endswith(OBS):
+        st = make_seed(name[:-len(OBS)])
+        st['seed'] = name
+        st['mode'] = 'obs'
+        return st
     if name == 'rect2x2':
         geo = seed_rect(2, 2, 0, [(0, -7.)])
     elif name == 'rect3x2':
@@ -538,6 +572,43 @@ def make_seed(name):
     else:
         raise core.HarnessError('unknown seed %r' % name)
     return {'geo': geo, 'hist': [], 'seed': name, 'valid': True, 'src': [], 'src_canon': []}
+
+
+OBS = '+obs'          # suffix of the seeds explored with the observed-history alphabet
+QUERIES = ('check', 'missing_connections', 'queries')
+# the operations that change (or re-derive) the mesh topology: the alphabet of the observed-history units
+TOPO = ('refine', 'split_column', 'decompose_columns', 'reduce', 'check_fix', 'delete_column', 'add_column',
+        'add_node', 'delete_node', 'add_connection', 'delete_connection', 'roundtrip')
+
+
+def edits_in(hist):
+    return len([op for op in hist if op[0] != 'query'])
+
+
+def run_queries(geo):
+    """Read-only look-ups other than check() and missing_connections: every one is called for what it may leave
+    behind on the objects, its answer is not judged here.  Returns the number of look-ups that raised."""
+    cols = list(geo.columnlist)
+    calls = [lambda: geo.extra_connections, lambda: geo.orphans, lambda: geo.bad_columns, lambda: geo.bad_layers,
+             lambda: [a.is_against(b) for a in cols for b in cols if a is not b],
+             lambda: [geo.connects(a, b) for a in cols for b in cols if a is not b],
+             lambda: [(c.neighbourlist, c.polygon, c.bounding_box, c.num_nodes, c.num_neighbours) for c in cols],
+             lambda: [(c.interior_angles, c.angle_ratio, c.side_ratio, c.contains_point(c.centre)) for c in cols],
+             lambda: geo.boundary_nodes, lambda: geo.boundary_polygon, lambda: geo.boundary_columns,
+             lambda: geo.column_boundary_nodes(cols[:1]), lambda: geo.column_neighbour_groups(cols),
+             lambda: geo.nodes_in_columns(cols), lambda: (geo.bounds, geo.area, geo.centre),
+             lambda: geo.column_bounds(cols), lambda: geo.node_kdtree, lambda: geo.column_quadtree(),
+             lambda: [geo.column_containing_point(c.centre) for c in cols],
+             lambda: (geo.num_blocks, geo.num_block_connections, geo.num_connections)]
+    raised = 0
+    for f in calls:
+        try:
+            f()
+        except (core.CaseTimeout, core.HarnessError):
+            raise
+        except Exception:
+            raised += 1
+    return raised
 
 
 DONORS = {'same': (0., [4., 8., 13.]),       # top at the seeds' ground level
@@ -618,11 +689,35 @@ def plan(seed, tier, depth):
     return ('ends+full', 'ends', True)
 
 
+def obs_plan(tier, nedits):
+    """(subset rule, candidate rule, reduced alphabet?) for the edit number 'nedits' of an observed history."""
+    if nedits == 0:
+        return ('singles+full', 'all', False) if tier == 'quick' else ('adaptive', 'all', False)
+    return ('ends+full', 'ends', True)
+
+
 def ops_of_factory(tier):
     def ops_of(st, depth):
+        if st.get('mode') != 'obs':
+            return gen(st, depth, plan(st['seed'], tier, depth))
+        # observed histories: two topology edits with one read-only operation before the first or between the
+        # two (q e1 e2, e1 q e2); the alphabet of an edit depends on how many edits went before, not on where
+        # the read-only operation stands
+        hist = st['hist']
+        ne = edits_in(hist)
+        queried = ne < len(hist)
+        if ne >= 2:
+            return []
+        out = []
+        if queried or not hist:
+            out += [op for op in gen(st, ne, obs_plan(tier, ne)) if op[0] in TOPO]
+        if not queried:
+            out += [['query', q] for q in QUERIES]
+        return out
+
+    def gen(st, depth, how):
         geo = st['geo']
-        seed = st['seed']
-        rule, cand, reduced = plan(seed, tier, depth)
+        rule, cand, reduced = how
         cols = canon_cols(geo)
         nodes = canon_nodes(geo)
         nc = len(cols)
@@ -688,6 +783,8 @@ def ops_of_factory(tier):
                         if len(S) <= 2 and dup_ok(S):
                             ops.append(['decompose_columns', S, 'dup'])
             ops.append(['fit_surface'])
+            # check(fix=True) on a mesh the reference finds valid: whatever it finds to fix, the mesh stays valid
+            ops.append(['check_fix'])
         # reduce to an edge-connected proper subset
         for S in subs:
             if len(S) < nc and edge_connected(geo, [cols[i] for i in S]):
@@ -900,6 +997,26 @@ def apply_op(st, op):
     if kind == 'fit_surface':
         do(st, 'fit_surface', fit_data(geo), silent=True)
         return False, ''
+    if kind == 'check_fix':
+        geo.check(fix=True, silent=True)
+        return True, ''
+    if kind == 'query':
+        # a read-only operation: judged by the invariant (and the unchanged canonical form) only; what it raises
+        # or answers is not part of the statement
+        try:
+            if op[1] == 'check':
+                geo.check(fix=False, silent=True)
+            elif op[1] == 'missing_connections':
+                geo.get_missing_connections()
+            else:
+                if run_queries(geo):
+                    st['_qraise'] = True
+        except (core.CaseTimeout, core.HarnessError):
+            raise
+        except Exception:
+            st['_qraise'] = True
+        st['obs'] = list(st.get('obs', ())) + [[op[1], edits_in(st['hist'][:-1])]]
+        return st['valid'], op[1]
     if kind == 'reduce':
         do(st, 'reduce', selection([c.name for c in cols], op[1], is_dup(op)))
         st['valid'] = True          # reduce() runs check(fix=True); re-established below by the reference
@@ -1019,6 +1136,7 @@ def apply_op(st, op):
         geo.write(path)
         st['geo'] = mulgrids.mulgrid(path)
         os.remove(path)
+        st['obs'] = []          # another object: nothing observed on it yet
         g2 = st['geo']
         st['_roundtrip'] = [(k, a, b) for k, a, b in (('nodes', len(geo.nodelist), len(g2.nodelist)),
                                                       ('columns', len(geo.columnlist), len(g2.columnlist)),
@@ -1081,6 +1199,8 @@ def step_impl(st, op, sink):
     # a message or by an exception, but a refusal must leave the geometry as it was
     unsupported = kind == 'refine' and op[-1] == 'unsupported'
     refused_before = canon_geo(st['geo']) if unsupported else None
+    query_before = canon_geo(st['geo']) if kind == 'query' else None
+    st.pop('_qraise', None)
     twin = None
     if kind in TWIN_OPS and not unsupported:
         twin = copy.deepcopy(st['geo'])
@@ -1120,6 +1240,8 @@ def step_impl(st, op, sink):
     if unsupported and canon_geo(geo) != refused_before:
         hard.append(('refused-but-changed', 'refine() of a region with a column of more than 4 sides %s and left the '
                      'geometry changed' % ('raised %s' % type(raised).__name__ if raised else 'returned')))
+    if kind == 'query' and canon_geo(geo) != query_before:
+        hard.append(('query-changed-geometry', 'the read-only operation %s changed the geometry' % op[1]))
     for k, a, b in st.pop('_roundtrip', None) or ():
         hard.append(('objects-lost', '%d %s written, %d read back' % (a, k, b)))
     # arguments are the caller's: unchanged after the call; and the same argument objects used on a second,
@@ -1203,6 +1325,8 @@ def op_class(op):
         return 'factor=%d' % op[2]
     if kind == 'copy_layers_from':
         return op[1] if len(op) > 1 else 'same'
+    if kind == 'query':
+        return op[1]
     return ''
 
 
@@ -1212,6 +1336,8 @@ NCHUNK = {'quick': {'rect2x2': 16, 'rect3x2': 40, 'mixed6': 8, 'g7': 8, 'rect2x2
                     'rect2x2Lw0': 16, 'rect2x2Lw3': 1, 'conv1rt': 1, 'conv2rt': 12},
           'thorough': {'rect2x2': 68, 'rect3x2': 48, 'mixed6': 40, 'g7': 8, 'rect2x2L': 16, 'rect2x1n': 16,
                        'rect2x2Lw0': 16, 'rect2x2Lw3': 16, 'conv1rt': 12, 'conv2rt': 12}}
+NCHUNK['quick'].update({'rect2x2+obs': 8, 'mixed6+obs': 8})
+NCHUNK['thorough'].update({'rect2x2+obs': 16, 'mixed6+obs': 16, 'rect3x2+obs': 16, 'hang7r0+obs': 8})
 for _r in range(7):
     NCHUNK['thorough']['hang7r%d' % _r] = 8
     if _r:
@@ -1313,7 +1439,9 @@ def run_unit(unit, tier, rec):
 
     def step(st, op):
         v = step_impl(st, op, sink_for(st))
-        rec.outcomes[op[0]] += 1
+        rec.outcomes[op[0] if op[0] != 'query' else 'query:' + op[1]] += 1
+        if st.pop('_qraise', None):
+            rec.outcomes['query-raised'] += 1
         if not v and len(st['hist']) >= depth:
             # last level: the engine keeps every new state in its frontier although it will not expand it;
             # keep the canonical form only
